@@ -899,6 +899,7 @@ class Module:
         self.functions = {}
         self.declares = {}
         self.aliases = {}
+        self.attr_groups = {}
         self._size_cache = {}
         self._parse(text)
 
@@ -909,8 +910,14 @@ class Module:
         n = len(lines)
         while i < n:
             ln = lines[i]
+            if ln.startswith('attributes #'):
+                m = re.match(r'attributes #(\d+) = \{(.*)\}', ln)
+                if m:
+                    self.attr_groups[int(m.group(1))] = m.group(2)
+                i += 1
+                continue
             if not ln or ln[0] == ';' or ln.startswith('source_filename') or ln.startswith('target ') \
-                    or ln[0] == '!' or ln.startswith('attributes ') or ln[0] == '$':
+                    or ln[0] == '!' or ln[0] == '$':
                 i += 1
                 continue
             if ln[0] == '%':
@@ -1111,6 +1118,22 @@ class Module:
             offs.append(off)
             off += s
         return offs
+
+
+def fn_attrs(mod, name):
+    """attribute text of a defined or declared function (inline attributes + its attribute group)"""
+    f = mod.functions.get(name)
+    if f is not None:
+        txt = f.attrs_text
+    else:
+        d = mod.declares.get(name)
+        if d is None:
+            return None
+        txt = d[3]
+    out = txt
+    for g in re.findall(r'#\s*(\d+)', txt):
+        out += ' ' + mod.attr_groups.get(int(g), '')
+    return out
 
 
 def load_module(path):
